@@ -123,6 +123,31 @@ def fam_rotation(ctx, rng):
     ok2 = bool(np.all(np.abs(r1.ns.amplitude - ns0) <= tol) and np.all(np.abs(r1.ew.amplitude - ew0) <= tol))
     ctx.check(ok and ok2, "composition-and-inverse", "orient(a);orient(b) != orient(b) or orient(theta0) does not restore",
               a=a, b=b, theta=theta, composed=ok, restored=ok2)
+    # ... also with work done in between: orient(a); taper / detrend / trim (the same sample-wise linear step on all three
+    # components, so it commutes with the rotation); orient back (theta or theta + 360 k) == the same step without any
+    # re-orientation.  The rotation acts on the samples the recording holds NOW.
+    r3 = gen.make_recording(ns0, ew0, Z, 0.01, degrees_from_north=theta)
+    r4 = gen.make_recording(ns0, ew0, Z, 0.01, degrees_from_north=theta)
+    r3.orient_sensor_to(a)
+    done = []
+    for _ in range(int(rng.integers(1, 3))):
+        op = str(rng.choice(["window", "detrend-linear", "detrend-constant", "trim"]))
+        for r in (r3, r4):
+            if op == "window":
+                r.window("tukey", 0.2)
+            elif op.startswith("detrend"):
+                r.detrend(type=op.split("-")[1])
+            elif r.ns.n_samples > 12:
+                t = r.ns.time()
+                r.trim(float(t[2]), float(t[-4]))
+        done.append(op)
+    back = theta + 360.0 * float(rng.choice([0, 0, 1, -1]))
+    r3.orient_sensor_to(back)
+    same_len = r3.ns.n_samples == r4.ns.n_samples == r3.ew.n_samples == r3.vt.n_samples
+    ok3 = same_len and bool(np.all(np.abs(r3.ns.amplitude - r4.ns.amplitude) <= tol) and np.all(np.abs(r3.ew.amplitude - r4.ew.amplitude) <= tol))
+    ctx.check(ok3, "composition-and-inverse", "orient(a); taper / detrend / trim; orient back differs from the same steps without "
+              "re-orientation", a=a, theta=theta, back=back, steps_in_between=done, same_lengths=bool(same_len),
+              mechanism="orient-work-orient-back")
     if any(abs((t - theta) % 360) > 1e-6 for t in targets):
         ctx.nontrivial([round(psi, 6), round(theta, 6), [round(t, 6) for t in targets]])
     ctx.state([psi % 90 == 0, theta % 90 == 0, len(targets)])
